@@ -48,6 +48,11 @@ type Mod struct {
 	// Raw is text spliced verbatim at the end of the module body (used to make
 	// deliberately rejected modules).
 	Raw string `json:"raw,omitempty"`
+	// OwnPrefix, when non-zero, makes the renderer write about half of the
+	// references to local definitions (typedefs, groupings, identities) with
+	// the module's own prefix (which ones is a function of this value and the
+	// name).
+	OwnPrefix uint64 `json:"own_prefix,omitempty"`
 	// YangVersion, when set, is rendered as a yang-version statement.
 	YangVersion string `json:"yang_version,omitempty"`
 }
@@ -74,10 +79,13 @@ type Enum struct {
 
 // Type is a type statement.
 type Type struct {
-	Ref            Ref      `json:"ref"`
-	Range          string   `json:"range,omitempty"`
-	Length         string   `json:"length,omitempty"`
-	Patterns       []string `json:"patterns,omitempty"`
+	Ref      Ref      `json:"ref"`
+	Range    string   `json:"range,omitempty"`
+	Length   string   `json:"length,omitempty"`
+	Patterns []string `json:"patterns,omitempty"`
+	// Posix lists arguments of openconfig-extensions:posix-pattern statements
+	// (the scenario then holds a module of that name declaring the extension).
+	Posix          []string `json:"posix,omitempty"`
 	Enums          []Enum   `json:"enums,omitempty"`
 	Bits           []Enum   `json:"bits,omitempty"`
 	Path           string   `json:"path,omitempty"`
@@ -174,6 +182,15 @@ type Deviation struct {
 	Target   []Step     `json:"target"`
 	Deviates []*Deviate `json:"deviates"`
 	Invalid  string     `json:"invalid,omitempty"`
+}
+
+// PosixModule is the name goyang looks for when it interprets posix-pattern.
+const PosixModule = "openconfig-extensions"
+
+// NewPosixModule returns the module that declares the posix-pattern extension.
+func NewPosixModule() *Mod {
+	return &Mod{Name: PosixModule, Prefix: "oc-ext", NS: "http://openconfig.net/yang/openconfig-ext",
+		Raw: "  extension posix-pattern { argument pattern; }\n"}
 }
 
 // Clone deep-copies a scenario (via JSON; scenarios are small).
